@@ -304,8 +304,9 @@ fn history(cfg: &Cfg, rep: &mut Report, h: u64, rounds: usize) {
         // ledger to the lattice of some rule's valid_until
         if rng.chance(1, 3) {
             let vs: Vec<u32> = rules.iter().filter_map(|r| r.valid_until).filter(|v| *v >= cur).collect();
-            let t = if vs.is_empty() { cur + 1 } else { *rng.pick(&vs) + rng.below(2) as u32 };
-            if t > cur && t < cur + 500 {
+            // (rarely far beyond every lifetime extension: rules, signers and policies must not lapse)
+            let t = if rng.chance(1, 12) { cur + 600_000 } else if vs.is_empty() { cur + 1 } else { *rng.pick(&vs) + rng.below(2) as u32 };
+            if t > cur && (t < cur + 500 || t == cur + 600_000) {
                 w.set_ledger(t);
                 rep.op(format!("ledger -> {t}"));
                 rep.count("ledger_moves");
